@@ -181,21 +181,25 @@ def case_class(case):
         return t[0], t[1].split(":")[0]
     if t[0] == "hy":
         return "hy", t[1]
-    if t[0] in ("irange", "tr", "sparse", "idxrun"):
+    if t[0] == "irange":
+        return t[0], "T"
+    if t[0] in ("tr", "sparse", "idxrun"):
         return t[0], t[1]
     return t[0], "-"
 
 
-def oracle_line(case, impl, spec):
-    """(reason, signature) if the spec rejects the impl's observation, else (None, None).
-    The spec line is the law evaluated on positions / the specified list / the fold."""
+def oracle_all(case, impl, spec):
+    """All (reason, signature) pairs for which the spec rejects the impl's observation ([] = accepted).
+    The spec line is the law evaluated on positions / the specified list / the fold.  Every token is judged on its own,
+    so that a known finding in one token cannot mask a fresh one in another token of the same case."""
     op, cl = case_class(case)
     if impl == spec:
-        return None, None
+        return []
     t = case.split()
     if impl.startswith(("CRASH", "HANG", "NOT-RUN", "EXC", "BADCASE", "TABLE-MISMATCH")) or spec.startswith(("MODEL-ERROR", "BADCASE")):
-        return "impl: %s" % impl[:200], "C16:%s:%s:%s" % (op, cl, impl.split("(")[0].split()[0].lower())
+        return [("impl: %s" % impl[:200], "C16:%s:%s:%s" % (op, cl, impl.split("(")[0].split()[0].lower()))]
     di, ds = toks(impl), toks(spec)
+    res = []
     for k in ds:
         if di.get(k) == ds[k]:
             continue
@@ -203,19 +207,31 @@ def oracle_line(case, impl, spec):
         if op in ("cmp", "cmpx"):
             i, j = int(t[3]), int(t[4])
             rel = "i=j" if i == j else ("i<j" if i < j else "i>j")
-            mixed = "mixed" if k in ("mc", "cm", "ic", "im", "ci", "mi") or (cl == "sl" and k[0] != k[1]) else "same"
+            mixed = "mixed" if k[0] != k[1] else "same"
             gb, _, gd = got.partition(":"); sb, _, sd_ = ds[k].partition(":")
             if "x" in gb:
-                return ("%s: ordering/difference between mutable and const iterator does not compile" % k,
-                        "C16:%s:%s:nocompile:%s" % (op, cl, mixed))
+                res.append(("%s: ordering/difference between mutable and const iterator does not compile" % k,
+                            "C16:%s:%s:nocompile:%s" % (op, cl, mixed)))
+                gb = gb.replace("x", "");  sb = sb[:len(gb)]; gd = sd_
             for n_, (x, y) in enumerate(zip(gb, sb)):
                 if x != y:
-                    return ("%s: operator %s on positions (%d,%d) gives %s, law says %s" % (k, BITN[n_], i, j, x, y),
-                            "C16:%s:%s:%s:%s:%s" % (op, cl, BITN[n_], mixed, rel))
-            return ("%s: difference of positions (%d,%d) is %s, law says %s" % (k, i, j, gd, sd_), "C16:%s:%s:diff:%s:%s" % (op, cl, mixed, rel))
-        return ("%s = %s but the property fixes %s" % (k, got, ds[k]), "C16:%s:%s:%s" % (op, cl, k))
+                    res.append(("%s: operator %s on positions (%d,%d) gives %s, law says %s" % (k, BITN[n_], i, j, x, y),
+                                "C16:%s:%s:%s:%s:%s" % (op, cl, BITN[n_], mixed, rel)))
+            if gd != sd_:
+                res.append(("%s: difference of positions (%d,%d) is %s, law says %s" % (k, i, j, gd, sd_), "C16:%s:%s:diff:%s:%s" % (op, cl, mixed, rel)))
+            if len(gb) != len(sb):
+                res.append(("%s: malformed %s" % (k, got), "C16:%s:%s:format" % (op, cl)))
+        else:
+            res.append(("%s = %s but the property fixes %s" % (k, got, ds[k]), "C16:%s:%s:%s" % (op, cl, k)))
     extra = [k for k in di if k not in ds]
-    return ("unexpected tokens %s" % extra, "C16:%s:%s:format" % (op, cl))
+    if extra:
+        res.append(("unexpected tokens %s" % extra, "C16:%s:%s:format" % (op, cl)))
+    return res
+
+
+def oracle_line(case, impl, spec):
+    r = oracle_all(case, impl, spec)
+    return r[0] if r else (None, None)
 
 
 def san_expected_overflow(case):
@@ -252,6 +268,12 @@ def build(ctx, san=True):
 
 def run(ctx):
     V.coq_stage(ctx)
+    if not ctx.quick:
+        rc, out = V.sh(["coqchk", "-o", "-silent", "-Q", ".", "DuneV", "DuneV.Properties_C16"], cwd=V.COQ, timeout=1800)
+        ax = re.search(r"\* Axioms:\s*(.*?)\n\s*\n", out, re.S)
+        ctx.coverage["coqchk"] = {"rc": rc, "axioms": (ax.group(1).strip() if ax else "?")}
+        if rc != 0:
+            ctx.violation("coq:coqchk", {"broken": "coqchk rejects the compiled C16 development", "log": out[-2000:]}, found_input=False)
     model = V.build_model(ctx)
     mixed, impl, impl_san, probe_log = build(ctx)
     ctx.log("ArrayList const/mutable ordering operators compile: %s" % mixed)
@@ -263,12 +285,13 @@ def run(ctx):
     for c, m, a in zip(cases, mo, io):
         cl = "%s:%s" % case_class(c); classes[cl] = classes.get(cl, 0) + 1
         mm, _, spec = m.partition(" | ")
-        reason, sig = oracle_line(c, a, spec)
-        if reason is not None:
+        rej = oracle_all(c, a, spec)
+        if rej:
             nviol += 1
-            per_sig[sig] = per_sig.get(sig, 0) + 1
-            if per_sig[sig] <= 3:
-                ctx.violation(sig, {"case": c, "impl": a, "model": mm, "spec": spec, "oracle": reason, "replay_cmd": "bin/check C16 --replay <this file>"})
+            for reason, sig in rej:
+                per_sig[sig] = per_sig.get(sig, 0) + 1
+                if per_sig[sig] <= 3:
+                    ctx.violation(sig, {"case": c, "impl": a, "model": mm, "spec": spec, "oracle": reason, "replay_cmd": "bin/check C16 --replay <this file>"})
         elif a != mm:
             ndis += 1
             ctx.violation("corr:C16/%s" % cl, {"broken": "corr:C16/%s" % cl, "case": c, "impl": a, "model": mm, "spec": spec,
@@ -308,7 +331,7 @@ def run(ctx):
         "class_distribution": classes, "impl_model_disagreements": ndis, "oracle_rejections": nviol, "oracle_rejections_by_signature": per_sig,
         "sanitizer_cases": len(clean), "sanitizer_differences": nsan, "predicted_difference_overflow_cases": len(ovf),
         "predicted_difference_overflow_confirmed_by_ubsan": nov, "arraylist_mixed_constness_ordering_compiles": mixed,
-        "exhaustive": "all pairs of positions and all in-range steps for the listed sizes", "traces_validated_against_impl": len(cases),
+        "exhaustive": False, "exhaustive_scope": "all pairs of positions and all in-range steps for the listed kinds and sizes (not exhaustive over contents/types)", "traces_validated_against_impl": len(cases),
     })
     ctx.assumptions += ["iterator categories / concepts are compile-time facts (static_asserts in the harness), not Coq theorems",
                         "position of a resulting iterator is identified by == against iterators constructed at every position, value by operator*",
@@ -324,7 +347,10 @@ def replay(ctx, path):
     io = V.run_cases(ctx, [impl], [case], tag="rimpl", timeout=20)
     mm, _, spec = mo[0].partition(" | ")
     print("case  :", case); print("impl  :", io[0]); print("model :", mm); print("spec  :", spec)
-    r, sig = oracle_line(case, io[0], spec)
+    rs = oracle_all(case, io[0], spec)
+    known = [k for k in V.load_known("C16") if k.get("status") == "known"]
+    fresh = [(x, sg) for x, sg in rs if not any(re.search(k["signature"], sg) for k in known)]
+    r = "; ".join("%s [%s]" % (x, sg) for x, sg in (fresh or rs)) or None
     if impl_san:
         so = V.run_cases(ctx, [impl_san], [case], tag="rsan", timeout=30, max_restarts=1)
         print("san   :", so[0])
